@@ -13,6 +13,8 @@ qm_c13 — driver for M-Equal. One request per line:
   (canontable)     → n n n …                            `Ctx.canon`
   (erase a)        → structural value                   `erase`
   (wf a)           → true | false                       `wfB`
+  (heapok)         → true | false                       every heap rope satisfies `Rope.lenOKB`
+heap entries are ropes: (b hex) | (b) owned, (z n) zeroed, (s rope off len), (c rope rope total), (tl rope count)
   (mintref w c)    → n                                  `mintRef`
   (createref w c)  → ok r c' | panic                    `createRef`
   (mintrun n w…)   → ok r… | fail                       `MintState.run` from `init n`, refs oldest first
@@ -35,6 +37,14 @@ def parseBytes : Sx → Option (List UInt8)
   | .list [.atom "b"] => some []
   | .list [.atom "b", .atom h] => parseHex h
   | _ => none
+
+/-- ropes: `(b hex)` / `(b)` owned, `(z n)` zeroed, `(s rope off len)`, `(c rope rope total)`, `(tl rope count)` -/
+partial def parseRope : Sx → Option Rope
+  | .list [.atom "z", n] => n.asNat.map Rope.zeroed
+  | .list [.atom "s", p, o, l] => do some (.slice (← parseRope p) (← o.asNat) (← l.asNat))
+  | .list [.atom "c", l, r, t] => do some (.concat (← parseRope l) (← parseRope r) (← t.asNat))
+  | .list [.atom "tl", u, c] => do some (.tiled (← parseRope u) (← c.asNat))
+  | x => (parseBytes x).map Rope.owned
 
 def parseConst : Sx → Option Const
   | .list [.atom "i", z] => z.asInt.map Const.int
@@ -115,13 +125,13 @@ def step (X : Ctx) (req : List Sx) : Ctx × String :=
   match req with
   | [.list [.atom "ctx", ts, cs, hp]] =>
     match parseSection "tuples" parseTuple ts, parseSection "consts" parseConst cs,
-        parseSection "heap" parseBytes hp with
+        parseSection "heap" parseRope hp with
     | some ts, some cs, some hp =>
       (Ctx.ofProgram ts cs hp, s!"ok {ts.length} {cs.length} {hp.length}")
     | _, _, _ => (X, "bad-request")
   | [.list [.atom "ctxraw", ts, cn, cs, hp]] =>
     match parseSection "tuples" parseTuple ts, parseSection "canon" Sx.asNat cn,
-        parseSection "consts" parseConst cs, parseSection "heap" parseBytes hp with
+        parseSection "consts" parseConst cs, parseSection "heap" parseRope hp with
     | some ts, some cn, some cs, some hp =>
       ({ tuples := ts, canon := cn, consts := cs, heap := hp }, s!"ok {ts.length} {cs.length} {hp.length}")
     | _, _, _, _ => (X, "bad-request")
@@ -142,6 +152,7 @@ def step (X : Ctx) (req : List Sx) : Ctx × String :=
     match i.asNat with
     | some i => (X, toString (X.canonOf i))
     | none => (X, "bad-request")
+  | [.list [.atom "heapok"]] => (X, toString (X.heap.all Rope.lenOKB))
   | [.list [.atom "canontable"]] => (X, " ".intercalate (X.canon.map toString))
   | [.list [.atom "erase", a]] =>
     match parseVal a with
